@@ -54,3 +54,45 @@ Example C16_sample :
                                     {| ttyp := tok_tBare; ts := "t"; tn := 0; tf := 0 |} ])
   = "accept SelectStmt{Columns=[s61];Table=s74}"%string.
 Proof. vm_compute. reflexivity. Qed.
+
+(* ---------- the tokenizer (Model/Tokenizer.v, tied to sql/tokenizer.go token by token on every run) ---------- *)
+From SQ Require Import Model.Base Model.Tokenizer Model.ParseBudget Proofs.TokenizerP Proofs.ParseCertP Proofs.ParseTermP.
+
+(* for EVERY byte string tokenize() returns tokens or an error: no slice out of range (Go: panic),
+   and its loop ends within len(s) + 1 iterations - every iteration moves the index forward *)
+Theorem C16_tokenize_total : forall s, tok_fine (tokenize s).
+Proof. exact tokenize_total. Qed.
+Print Assumptions C16_tokenize_total.
+
+(* locality at the level of tokens: what the loop reports from byte i on is what it reports for the
+   string with its first i bytes removed - nothing read earlier influences it *)
+Theorem C16_tokens_suffix_local : forall fuel s i j acc, 0 <= i -> 0 <= j -> i <= len s ->
+  tok_loop fuel s (i + j) acc = tok_loop fuel (drop i s) j acc.
+Proof. exact tok_loop_suffix. Qed.
+Print Assumptions C16_tokens_suffix_local.
+
+(* ... and the tokens already reported are never changed by what follows *)
+Theorem C16_tokens_prefix_kept : forall fuel s i acc, tok_loop fuel s i acc = tok_prepend (rev acc) (tok_loop fuel s i []).
+Proof. exact tok_loop_acc. Qed.
+Print Assumptions C16_tokens_prefix_kept.
+
+(* ---------- termination of the generated parser ---------- *)
+(* for EVERY token list the driver loop ends (accept, syntax error, or a detected stale read)
+   within parse_budget iterations: a bound linear in the number of tokens.  Proved from a
+   certificate (Gen/ParserCert.v) that is recomputed from the tables and re-checked on every run. *)
+Theorem C16_parse_terminates : forall toks, parse_tokens (parse_budget toks) toks <> OutOfFuel.
+Proof. exact parse_terminates. Qed.
+Print Assumptions C16_parse_terminates.
+
+(* no reduction pops more states than the stack holds (Go: a negative slice index, a panic) *)
+Theorem C16_no_stack_underflow : forall c p, TInv c -> decide (top_state c) (option_map fst (look c)) = DReduce p ->
+  exists L, nthZ yyR2 p = Some L /\ 0 <= L /\ (Z.to_nat L < List.length (live c))%nat.
+Proof. exact reduce_never_underflows. Qed.
+Print Assumptions C16_no_stack_underflow.
+
+(* sql.Parse as a whole, for EVERY input string: it returns - a statement, a syntax error, or (in
+   the model only) a detected stale read; never a panic in the tokenizer or the tables, never
+   non-termination *)
+Theorem C16_parse_total : forall s, parse_sql s <> OutOfFuel /\ ~ table_panic (parse_sql s).
+Proof. exact parse_sql_total. Qed.
+Print Assumptions C16_parse_total.
